@@ -139,23 +139,24 @@ class CFG:
             c = self._stmt_node("if", st)
             for p in preds:
                 self._edge(p, c)
-            self._attach_exc(c)
+            # convention: succ[0] of an if/while node is the true edge, every other
+            # non-exceptional successor is a false edge
             t_ends = self._seq(st.body, [c])
-            # mark branch entries
             if st.orelse:
                 f_ends = self._seq(st.orelse, [c])
             else:
                 f_ends = [c]
+            self._attach_exc(c)
             return t_ends + f_ends
         if isinstance(st, (ast.While,)):
             c = self._stmt_node("while", st)
             for p in preds:
                 self._edge(p, c)
-            self._attach_exc(c)
             after = self._new("join", None, "after-while")
             self._loops.append((c, after))
             b_ends = self._seq(st.body, [c])
             self._loops.pop()
+            self._attach_exc(c)
             for e in b_ends:
                 self._edge(e, c)
             const_true = isinstance(st.test, ast.Constant) and bool(st.test.value)
@@ -281,6 +282,13 @@ class CFG:
         return ends
 
     # -- queries ------------------------------------------------------------
+    def branch_succs(self, n: Node):
+        """(true successors, false successors) of an if/while node"""
+        normal = [x for x in n.succ if x.idx not in n.exc_succ]
+        if not normal:
+            return [], []
+        return [normal[0]], normal[1:]
+
     def node_of(self, st: ast.AST) -> Node:
         try:
             return self.by_ast[id(st)]
